@@ -5,6 +5,7 @@
 -/
 import RdestModel.Swarm.Choke
 import RdestModel.Lemmas.Trace
+import RdestModel.Swarm.Stats
 set_option linter.unusedSimpArgs false
 namespace Rdest.Props.C14
 open Rdest.Gen Rdest.Swarm
@@ -680,6 +681,90 @@ theorem C14_trace (sha1 : Bytes → Bytes) (s : HState) (halive : s.alive = true
     (fun st s inp s' o e hR h => step14_sound sha1 st s inp s' o e hR h) script true s halive.symm
 
 end Wire
+
+/-! ### The measured rate (`Stats`, `timeout_sync_stats`): what the connection task reports to the manager -/
+
+section Rate
+
+/-- The state a script ends in. -/
+def endStats (q : Nat) : Stats → List StatOp → Stats
+  | s, [] => s
+  | s, .down n :: ops => endStats q (s.downloaded n) ops
+  | s, .up n :: ops => endStats q (s.uploaded n) ops
+  | s, .unexpected :: ops => endStats q s.unexpectedBlock ops
+  | s, .tick :: ops => endStats q (s.tickG q).2 ops
+
+theorem runStats_append (q : Nat) (s : Stats) (a b : List StatOp) :
+    runStats q s (a ++ b) = runStats q s a ++ runStats q (endStats q s a) b := by
+  induction a generalizing s with
+  | nil => rfl
+  | cons op ops ih => cases op <;> simp [runStats, endStats, ih]
+
+theorem endStats_append (q : Nat) (s : Stats) (a b : List StatOp) :
+    endStats q s (a ++ b) = endStats q (endStats q s a) b := by
+  induction a generalizing s with
+  | nil => rfl
+  | cons op ops ih => cases op <;> simp [endStats, ih]
+
+/-- One statistics interval: `d` bytes downloaded, `u` uploaded, then the timer fires. -/
+def interval (w : Nat × Nat) : List StatOp := [.down w.1, .up w.2, .tick]
+
+/-- The queue size the statements below are about, from the source. -/
+theorem queue_size : MAX_STATS_QUEUE_SIZE = 2 := by decide
+
+/-- A state at an interval boundary: fresh counters in front of at most one kept interval. -/
+def AtBoundary (s : Stats) : Prop :=
+  (∃ x, s = { down := [0], up := [0], unexpected := x }) ∨ (∃ p q x, s = { down := [0, p], up := [0, q], unexpected := x })
+
+theorem interval_from_boundary (s : Stats) (h : AtBoundary s) (w : Nat × Nat) :
+    endStats 2 s (interval w) = { down := [0, w.1], up := [0, w.2], unexpected := 0 } := by
+  rcases h with ⟨x, rfl⟩ | ⟨p, q, x, rfl⟩ <;>
+    simp [interval, endStats, Stats.downloaded, Stats.uploaded, Stats.tickG, Stats.shiftG, bump, trimQ]
+
+/-- After any number (≥ 1) of complete intervals the queue holds the interval just ended behind a fresh counter. -/
+theorem endStats_intervals (ws : List (Nat × Nat)) (w : Nat × Nat) :
+    endStats 2 {} ((ws ++ [w]).flatMap interval) = { down := [0, w.1], up := [0, w.2], unexpected := 0 } := by
+  suffices h : ∀ (s : Stats), AtBoundary s →
+      endStats 2 s ((ws ++ [w]).flatMap interval) = { down := [0, w.1], up := [0, w.2], unexpected := 0 } by
+    exact h {} (Or.inl ⟨0, rfl⟩)
+  induction ws with
+  | nil =>
+    intro s hs
+    simpa using interval_from_boundary s hs w
+  | cons v vs ih =>
+    intro s hs
+    simp only [List.cons_append, List.flatMap_cons, endStats_append]
+    apply ih
+    rw [interval_from_boundary s hs v]
+    exact Or.inr ⟨v.1, v.2, 0, rfl⟩
+
+/-- **T4a (C14, measured rate).** The first interval of a connection reports nothing: the manager has no rate for a
+    fresh connection (and `tick_waits_for_rates` says the rotation then waits). -/
+theorem T4_first_interval_reports_nothing (w : Nat × Nat) : runStats 2 {} (interval w) = [none] := by
+  simp [interval, runStats, Stats.downloaded, Stats.uploaded, Stats.tickG, bump]
+
+/-- **T4b (C14, measured rate).** At the end of every later interval the task reports, for download and upload, the
+    mean of the bytes moved in the interval just ended and in the one before it (integer division by the queue size),
+    whatever happened earlier on the connection. -/
+theorem T4_rate_is_the_mean_of_the_last_two_intervals (ws : List (Nat × Nat)) (w0 w1 : Nat × Nat) :
+    (runStats 2 {} ((ws ++ [w0, w1]).flatMap interval)).getLast? =
+      some (some (some ((w1.1 + w0.1) / 2), some ((w1.2 + w0.2) / 2), 0)) := by
+  have hsplit : (ws ++ [w0, w1]).flatMap interval = (ws ++ [w0]).flatMap interval ++ interval w1 := by
+    simp [List.flatMap_append]
+  rw [hsplit, runStats_append, endStats_intervals ws w0]
+  simp [interval, runStats, Stats.downloaded, Stats.uploaded, Stats.tickG, rateG, bump]
+
+/-- Bytes counted in several steps within an interval add up. -/
+theorem downloaded_adds (s : Stats) (a b : Nat) : (s.downloaded a).downloaded b = s.downloaded (a + b) := by
+  obtain ⟨d, u, x⟩ := s
+  cases d with
+  | nil => rfl
+  | cons h t => simp [Stats.downloaded, bump]; omega
+
+example : runStats 2 {} ([(10, 0), (30, 8), (50, 2)].flatMap interval) =
+    [none, some (some 20, some 4, 0), some (some 40, some 5, 0)] := by decide
+
+end Rate
 
 /-! ### Non-vacuity (tests): with a limit of 2, three interested peers send bitfields, then a rotation with an
     optimistic pick; the hypotheses of T1 and T2 are met by this concrete history. -/
